@@ -34,8 +34,9 @@ def prepare():
     from pharmpy.workflows.contexts import NullContext
     from pharmpy.workflows.dispatchers.local_dask import run as run_mod  # noqa
     import pharmpy.workflows.dispatchers.local_dask.run as runmod
+    from pharmpy.workflows import LocalDirectoryContext
     _P.update(dask=dask, dask_local=dask.local, pw=pw, disp=disp, wfmod=wfmod, Model=Model,
-              NullContext=NullContext, runmod=runmod)
+              NullContext=NullContext, runmod=runmod, LocalDirectoryContext=LocalDirectoryContext)
     try:
         import dask.distributed as dd
         _P['dd'] = dd
@@ -45,6 +46,11 @@ def prepare():
     # equal content (Model.__eq__ ignores name and description), different identity and name
     _P['models'] = [_P['model'], Model.create(name='renamed_copy'),
                     Model.create(name='third', description='other description')]
+    # model entries (execute_workflow's rewrite of static inputs only looks at Model objects):
+    # equal content, different identity and model name
+    from pharmpy.workflows import ModelEntry
+    _P['ModelEntry'] = ModelEntry
+    _P['models'] += [ModelEntry.create(_P['models'][0]), ModelEntry.create(_P['models'][1])]
 
 
 # --------------------------------------------------------------------------
@@ -117,7 +123,15 @@ def enc(x):
     M = _P.get('Model')
     if M is not None and isinstance(x, M):
         return f'Model:{x.name}'
-    if _CUR[0] is not None and x is _CUR[0].ctx_obj:
+    ME = _P.get('ModelEntry')
+    if ME is not None and isinstance(x, ME):
+        return f'ModelEntry:{x.model.name}'
+    if _CUR[0] is not None and _CUR[0].ctx_obj is not None and x is _CUR[0].ctx_obj:
+        return 'CTX'
+    if _CUR[0] is not None and _CUR[0].ctx_obj is None and _CUR[0].disk and \
+            isinstance(x, _P['LocalDirectoryContext']):
+        # the default context execute_workflow created itself (context=None): adopt it
+        _CUR[0].ctx_obj = x
         return 'CTX'
     if isinstance(x, tuple):
         if len(x) == 2 and x[0] == 'sub' and isinstance(x[1], tuple):
@@ -151,7 +165,7 @@ def _call(fname, args):
         run.calls.append((run.seq, 'fail', fname, argsigs, None))
         raise InjectedTaskFailure(sig)
     v = value_of(fname, argsigs)
-    if run.disk and args and args[0] is run.ctx_obj:
+    if run.disk and args and run.ctx_obj is not None and args[0] is run.ctx_obj:
         # a context-taking task logs through the real context (message with quotes and commas)
         msg = f'task|{fname}|' + ','.join(f'"{a}"' for a in argsigs)
         s0 = run.seq
@@ -1039,9 +1053,19 @@ def _execute(cfg, tape, world, wf, m, multi, viol, stats, h, want_trace):
         droot = _disk_root()
         shutil.rmtree(droot, ignore_errors=True)
         os.makedirs(droot)
-        ctx = LocalDirectoryContext('wfctx', ref=droot)
-        ctx.broadcast_message = lambda *a, **k: None
+        os.chdir(droot)         # whatever falls back to the current directory stays in the scratch area
+        import pharmpy.workflows.contexts.baseclass as _ctxbase
+        run.saved_broadcast = (_ctxbase, _ctxbase.broadcast_message)
+        _ctxbase.broadcast_message = lambda *a, **k: None      # terminal broadcast: stub
         run.disk = True
+        run.default_ctx = tape.draw(3, 'ctx.default') == 2
+        if run.default_ctx:
+            # execute_workflow(context=None, path=...) creates LocalDirectoryContext(<workflow
+            # name>, ref=path) itself
+            ctx = None
+            stats['exec.default_context'] = stats.get('exec.default_context', 0) + 1
+        else:
+            ctx = LocalDirectoryContext('wfctx', ref=droot)
         stats['exec.disk_context'] = stats.get('exec.disk_context', 0) + 1
     else:
         ctx = _P['NullContext']('ctx')
@@ -1104,7 +1128,10 @@ def _execute(cfg, tape, world, wf, m, multi, viol, stats, h, want_trace):
     def dispatch():
         try:
             with dask.config.set(pool=env.pool, chunksize=chunks):
-                outcome['value'] = pw.execute_workflow(wf, context=ctx)
+                if run.disk and getattr(run, 'default_ctx', False):
+                    outcome['value'] = pw.execute_workflow(wf, path=_disk_root())
+                else:
+                    outcome['value'] = pw.execute_workflow(wf, context=ctx)
         except Exception as e:
             outcome['exc'] = e
 
@@ -1141,6 +1168,22 @@ def _execute(cfg, tape, world, wf, m, multi, viol, stats, h, want_trace):
         if saved_dd is not None:
             (dd.Client, dd.LocalCluster, dd.Future, dd.get_client, dd.secede, dd.rejoin) = saved_dd
         _CUR[0] = None
+        if getattr(run, 'saved_broadcast', None):
+            run.saved_broadcast[0].broadcast_message = run.saved_broadcast[1]
+    ctx_name = 'wfctx'
+    if disk and getattr(run, 'default_ctx', False):
+        # reopen the context execute_workflow created (named after the workflow)
+        ctx_name = 'wf'
+        if not multi:
+            try:
+                ctx = _P['LocalDirectoryContext']('wf', ref=_disk_root())
+                ctx.broadcast_message = lambda *a, **k: None
+            except Exception as ex:
+                viol('default-context', f'the default context cannot be reopened: {ex!r}')
+                return out
+            if run.ctx_obj is not None and str(run.ctx_obj.path) != str(ctx.path):
+                viol('default-context', f'tasks received a context at {run.ctx_obj.path}, expected {ctx.path}')
+                return out
 
     # ---------------- oracle over the recorded history
     _CUR[0] = run   # enc() needs the context identity
@@ -1198,8 +1241,8 @@ def _execute(cfg, tape, world, wf, m, multi, viol, stats, h, want_trace):
                     v = a.strip("'")
                     if v not in ended or ended[v] > c[0]:
                         viol('started-before-predecessor', f'{c[2]} started with {v} before it existed')
-    if disk:
-        prob = _check_context_log(ctx, run, cfg, exc)
+    if disk and ctx is not None:
+        prob = _check_context_log(ctx, run, cfg, exc, ctx_name)
         if prob:
             viol('context-log', prob)
             return out
@@ -1295,7 +1338,7 @@ def _check_stored_results(ctx, got, want_value):
     return None
 
 
-def _check_context_log(ctx, run, cfg, exc):
+def _check_context_log(ctx, run, cfg, exc, ctx_name='wfctx'):
     """Every log call made by a task is in the context's log exactly once, verbatim, with its
     severity and context path, in an order consistent with the calls' real-time order; the
     distributed dispatcher frames them with its own two messages."""
@@ -1308,7 +1351,7 @@ def _check_context_log(ctx, run, cfg, exc):
     want = [(m_[2], m_[3]) for m_ in run.logged]
     if sorted((r[2], r[1]) for r in task_rows) != sorted(want):
         return f'log rows {[(r[2], r[1]) for r in task_rows][:4]} differ from the messages the tasks logged {want[:4]}'
-    if any(r[0] != 'wfctx' for r in rows):
+    if any(r[0] != ctx_name for r in rows):
         return f'context path of a row is not that of the context: {[r[0] for r in rows][:3]}'
     pos = {}
     for i, r in enumerate(task_rows):
